@@ -40,7 +40,14 @@ func TestC15Runs(t *testing.T) {
 		conc := 2
 		var b strings.Builder
 		b.WriteString("scenario: verifscenario\ndefault:\n  jitter: 0\n  distribution: none\n  concurrency: 2\n")
-		b.WriteString("limits:\n  max-duration: 5s\n  concurrency: " + strconv.Itoa(conc) + "\n  max-iterations: 0\n  ignore-dropped: true\nstages:\n")
+		// every third run is cut short while a stage with parameters is still triggering: by
+		// max-duration (rounds 2, 8, ...) or by cancelling the run (rounds 5, 11, ...)
+		cut := round%3 == 2
+		maxDur := "5s"
+		if cut && round%6 == 2 {
+			maxDur = "140ms"
+		}
+		b.WriteString("limits:\n  max-duration: " + maxDur + "\n  concurrency: " + strconv.Itoa(conc) + "\n  max-iterations: 0\n  ignore-dropped: true\nstages:\n")
 		for i := 0; i < ns; i++ {
 			mode := kit.Pick(r, "constant", "constant", "users", "staged")
 			b.WriteString(fmt.Sprintf("  - duration: %dms\n    mode: %s\n", r.Range(90, 160), mode))
@@ -70,8 +77,13 @@ func TestC15Runs(t *testing.T) {
 				mu.Unlock()
 			}
 		}
-		out, hung, dump := runkit.DoTimeout(runkit.Config{Mode: "file", FileArg: path, Scenario: scenario, Ctx: context.Background(),
+		ctx, cancelRun := context.WithCancel(context.Background())
+		if cut && round%6 == 5 {
+			go func() { time.Sleep(140 * time.Millisecond); cancelRun() }()
+		}
+		out, hung, dump := runkit.DoTimeout(runkit.Config{Mode: "file", FileArg: path, Scenario: scenario, Ctx: ctx,
 			Opts: options.RunOptions{}}, 60*time.Second)
+		cancelRun()
 		if hung {
 			o.Fail("c15-run-hung", "file run did not return: "+dump[:min(len(dump), 2000)])
 			continue
@@ -111,6 +123,13 @@ func TestC15Runs(t *testing.T) {
 		// few milliseconds into the next stage: tolerate at most `concurrency` of them per boundary
 		tolerated := conc * (ns - 1)
 		stagesSeen := len(seen)
+		if cut {
+			// the run ended inside the second stage: only the stages that started can have been seen
+			o.Count("file-run", "cut short mid-stage")
+			ns = stagesSeen
+		} else {
+			o.Count("file-run", "complete")
+		}
 		tags := []string{"filerun", "nt"}
 		o.AddStat("file_run_iterations", int64(len(es)))
 		o.AddStat("file_run_anomalies", int64(anomalies))
